@@ -102,6 +102,41 @@ class Check(object):
     def violation(self, kind, signature, detail, replay):
         self.violations.append(Violation(kind, signature, detail, replay))
 
+    def _confirm_hangs(self, violations):
+        """`request-did-not-terminate` is judged by a deadline (CPU seconds); before it is reported, the smallest replay
+        of each such signature is run again in a process of its own with a deadline four times as long.  A request that
+        really does not terminate is abandoned again; otherwise the signature is dropped and counted in the evidence
+        (`deadline_not_reproduced`) - a deadline that fired once and not again is not a failing input."""
+        hang = {}
+        for v in violations:
+            if v.kind == 'monitor' and v.signature.startswith('request-did-not-terminate'):
+                hang.setdefault(v.signature, []).append(v)
+        if not hang:
+            return violations
+        dropped = set()
+        os.makedirs(REPLAYS, exist_ok=True)
+        for sig, vs in sorted(hang.items()):
+            v = min(vs, key=lambda x: len(json.dumps(x.replay, default=str)))
+            path = os.path.join(REPLAYS, '.confirm_%s_%d.json' % (self.pid, os.getpid()))
+            with open(path, 'w') as f:
+                json.dump({'property': self.pid, 'kind': 'monitor', 'signature': sig, 'replay': v.replay}, f, default=str)
+            env = dict(os.environ, VERIF_REQUEST_TIMEOUT=str(4 * float(os.environ.get('VERIF_REQUEST_TIMEOUT', '6'))))
+            try:
+                r = subprocess.run([sys.executable, '-m', 'harness.run', 'replay', path], cwd=ROOT, env=env,
+                                   capture_output=True, text=True, timeout=600)
+                reproduced = r.returncode == 1 or 'no automatic re-run' in r.stdout
+            except subprocess.TimeoutExpired:
+                reproduced = True
+            finally:
+                try:
+                    os.unlink(path)
+                except OSError:
+                    pass
+            if not reproduced:
+                dropped.add(sig)
+                self.count('deadline_not_reproduced', len(vs))
+        return [v for v in violations if v.signature not in dropped]
+
     def finish(self):
         findings = load_findings().get('findings', [])
         known = {}
@@ -111,6 +146,7 @@ class Check(object):
         os.makedirs(EVID, exist_ok=True)
         os.makedirs(REPLAYS, exist_ok=True)
         new, seen_known = [], {}
+        self.violations = self._confirm_hangs(self.violations)
         for v in self.violations:
             if v.kind == 'monitor' and v.signature in known:
                 seen_known.setdefault(v.signature, v)
